@@ -1131,6 +1131,12 @@ func (r *realm) testamentAdd(msg *wamp.Invocation) wamp.Message {
 	}
 
 	r.actionChan <- func() {
+		// The caller may have left the realm since it made this call. Its
+		// testaments have been published and removed by then; one stored now
+		// would never be published and never be removed.
+		if _, ok := r.clients[caller]; !ok {
+			return
+		}
 		// A map returns the "zero value" if a key doesn't exist, so there are
 		// nils for the arrays which are equal to empty arrays
 		testaments := r.testaments[caller]
